@@ -123,6 +123,10 @@ class DefinitionsMapper:
         Yields:
             An iterator of class instances.
         """
+        # WSDL 1.1 3.3: an omitted style means "document"; the service class
+        # must carry it like a declared one.
+        config.setdefault("style", "document")
+
         attrs = [
             cls.build_attr(key, str(DataType.STRING), native=True, default=config[key])
             for key in sorted(config.keys(), key=len)
